@@ -17,7 +17,7 @@ RULE = ("every shipped periodic service is run by trio.run(run, clock=MockClock(
         "scripted environment task; intervals / windows are dyadic, 20..120 periods (thorough up to 500); environment "
         "actions (pool state changes, demand writes through a Buffer) are placed before, on and after period "
         "boundaries; the recording pool logs every read and write with trio.current_time(); the observed event order "
-        "(incl. same-instant order) is passed to the model; non-trivial = at least 5 periods and one environment "
+        "(incl. same-instant order) is passed to the model; extra oracle-only streams use windows / intervals that are no binary fractions (0.1, 0.3, 1/3, ...) and services started at any time of the clock (0, 0.05, 123.456, 1e6+0.1), with a budget of task steps per run (a loop that spins at one instant is reported); non-trivial = at least 5 periods and one environment "
         "action; distinct = distinct canonical case JSON")
 ASSUMPTIONS = ["trio's clock contract: sleep(d) started at virtual time t ends at t+d and the loop body takes no virtual time (MockClock with autojump)",
                "real-time behaviour (scheduler latency, wall-clock drift) is not modelled: the claim is about the virtual-clock contract",
